@@ -69,8 +69,9 @@ func styled(es []imgkit.Entry, style string) []imgkit.Entry {
 func entryOptions(universe []string, thorough bool) []imgkit.Entry {
 	var out []imgkit.Entry
 	for _, p := range universe {
-		out = append(out, imgkit.File(p, "1"), imgkit.Entry{Name: p, Kind: "file", Data: "22", Mode: 0o600})
-		out = append(out, imgkit.Entry{Name: p, Kind: "dir", Mode: 0o750})
+		// the second file is setuid, the directory sticky: the special bits are part of the mode
+		out = append(out, imgkit.File(p, "1"), imgkit.Entry{Name: p, Kind: "file", Data: "22", Mode: 0o4700})
+		out = append(out, imgkit.Entry{Name: p, Kind: "dir", Mode: 0o1750})
 		out = append(out, imgkit.Whiteout(p))
 		out = append(out, imgkit.Opaque(p))
 	}
@@ -251,7 +252,7 @@ func applyVariant(m imgkit.Model, es []imgkit.Entry, noOpaque, sequential bool) 
 			}
 			if !present[a] {
 				present[a] = true
-				kept = append(kept, imgkit.Dir(a))
+				kept = append(kept, imgkit.Entry{Name: a, Kind: "dir", Mode: 0o755, Implied: true})
 			}
 		}
 		if hidden {
@@ -294,6 +295,26 @@ func sameLayerInterference(l []imgkit.Entry) bool {
 // ---- comparing one view ----
 
 type mismatch struct{ kind, detail string }
+
+// modeBits keeps permission and setuid/setgid/sticky bits of a file mode.
+func modeBits(m fs.FileMode) fs.FileMode {
+	return m & (fs.ModePerm | fs.ModeSetuid | fs.ModeSetgid | fs.ModeSticky)
+}
+
+// tarModeBits translates the mode field of a tar header (Unix bits) into fs.FileMode bits.
+func tarModeBits(m int64) fs.FileMode {
+	out := fs.FileMode(m & 0o777)
+	if m&0o4000 != 0 {
+		out |= fs.ModeSetuid
+	}
+	if m&0o2000 != 0 {
+		out |= fs.ModeSetgid
+	}
+	if m&0o1000 != 0 {
+		out |= fs.ModeSticky
+	}
+	return out
+}
 
 func probePaths(universe []string) []string {
 	return append(append([]string{}, universe...), "zz", "a/zz")
@@ -350,6 +371,11 @@ func compareView(fsys scalibrfs.FS, m imgkit.Model, universe []string, requiredO
 			if !fi.IsDir() {
 				return &mismatch{"wrong-kind", fmt.Sprintf("Stat(%q) mode %v, model has a directory", p, fi.Mode())}
 			}
+			// the mode of a directory is defined when some layer carried an entry for it (the mode of a
+			// directory that only exists as an implied parent is a don't-care)
+			if n.Explicit && requiredOnly == nil && modeBits(fi.Mode()) != tarModeBits(n.Mode) {
+				return &mismatch{"wrong-dir-mode", fmt.Sprintf("Stat(%q) mode %v, model %v", p, fi.Mode(), tarModeBits(n.Mode)|fs.ModeDir)}
+			}
 		case "file":
 			if err != nil {
 				return &mismatch{"lookup-misses-present-path", fmt.Sprintf("Stat(%q): %v, model has file %q", p, err, n.Data)}
@@ -360,8 +386,8 @@ func compareView(fsys scalibrfs.FS, m imgkit.Model, universe []string, requiredO
 			if fi.Size() != int64(len(n.Data)) {
 				return &mismatch{"wrong-size", fmt.Sprintf("Stat(%q) size %d, model %d", p, fi.Size(), len(n.Data))}
 			}
-			if int64(fi.Mode().Perm()) != n.Mode {
-				return &mismatch{"wrong-mode", fmt.Sprintf("Stat(%q) perm %o, model %o", p, fi.Mode().Perm(), n.Mode)}
+			if modeBits(fi.Mode()) != tarModeBits(n.Mode) {
+				return &mismatch{"wrong-mode", fmt.Sprintf("Stat(%q) mode %v, model %v", p, fi.Mode(), tarModeBits(n.Mode))}
 			}
 			f, err := fsys.Open(p)
 			if err != nil {
@@ -915,7 +941,7 @@ func main() {
 		pu := []string{"a", "a/x", "ab", "ab/x", "a.b"}
 		var po []imgkit.Entry
 		for _, p := range pu {
-			po = append(po, imgkit.File(p, "1"), imgkit.Entry{Name: p, Kind: "dir", Mode: 0o750}, imgkit.Whiteout(p), imgkit.Opaque(p))
+			po = append(po, imgkit.File(p, "1"), imgkit.Entry{Name: p, Kind: "dir", Mode: 0o1750}, imgkit.Whiteout(p), imgkit.Opaque(p))
 		}
 		psets := layerSets(po, ev.Pick(r, 2, 3))
 		var p1 [][]imgkit.Entry
